@@ -12,16 +12,153 @@ const BASES: &[Base] = &[
   Base::Base36Lower, Base::Base36Upper, Base::Base58Flickr, Base::Base58Btc, Base::Base64, Base::Base64Pad, Base::Base64Url, Base::Base64UrlPad,
 ];
 
+/// Inclusive range of Unix times a `Timestamp` can hold (0000-01-01T00:00:00Z ..= 9999-12-31T23:59:59Z).
+const TS_LOW: i64 = -62_167_219_200;
+const TS_HIGH: i64 = 253_402_300_799;
+
+/// `[seconds, nanoseconds]` pairs of wire-format durations. `Duration`'s constructors take unsigned numbers; negative and
+/// fractional durations only come out of its `Deserialize` implementation, i.e. out of externally supplied data.
+const WIRE_DURATIONS: &[(i64, i32)] = &[
+  (0, 0), (0, 1), (0, -1), (0, 999_999_999), (0, -999_999_999), (1, 0), (-1, 0), (-2, 0), (1, 500_000_000), (-1, -500_000_000), (-1, -999_999_999),
+  (86_400, 0), (-86_400, 0), (-86_399, -999_999_999), (31_622_400, 0), (-31_622_400, 0), (4_294_967_295, 0), (-4_294_967_295, 0),
+  // the width of the whole range and one second either side of it
+  (315_569_519_998, 0), (-315_569_519_998, 0), (315_569_519_999, 0), (-315_569_519_999, 0), (315_569_520_000, 0), (-315_569_520_000, 0),
+  // far enough to leave the years -9999..=9999 the `time` crate can represent
+  (631_139_040_000, 0), (-631_139_040_000, 0), (i64::MAX, 0), (i64::MIN, 0), (i64::MAX, 999_999_999), (i64::MIN, -999_999_999),
+];
+
+/// Other spellings a deserialiser may or may not accept (fed to `Duration::from_json` as an entry point; used when accepted).
+const WIRE_DURATION_TEXTS: &[&str] = &[
+  "[1,1000000000]", "[1,-1000000000]", "[9223372036854775807,1000000000]", "[-9223372036854775808,-1000000000]", "[0,2147483647]", "[0,-2147483648]",
+  "[9223372036854775807,2147483647]", "[-9223372036854775808,-2147483648]", "[1,-1]", "[-1,1]", "[1.5,0]", "[1,0.5]", "[-1e3,0]", "[1]", "[1,0,0]", "[]", "[\"1\",\"0\"]",
+  "{\"secs\":-1,\"nanos\":0}", "{\"seconds\":-1,\"nanoseconds\":0}", "\"-1.000000000\"", "\"-0.5\"", "\"-62167219201.0\"", "\"9223372036854775807.999999999\"",
+  "\"-9223372036854775808.999999999\"", "\"1.\"", "\".5\"", "\"-.5\"", "\"1.0000000000000000001\"", "\"1.é\"", "-1", "1", "-1.5", "null", "[null,null]", "[18446744073709551615,0]", "[-9223372036854775809,0]",
+];
+
+/// A duration read from its wire form, outside of any case (a panic here is reported by the directed part of `run`, which
+/// feeds the same texts to `Duration::from_json` as an entry point).
+fn wire_duration(text: &str) -> Option<Duration> {
+  vh::panicmon::catch(|| Duration::from_json(text).ok()).ok().flatten()
+}
+
+/// (wire text, accepted value, what the harness wrote into the text: seconds and nanoseconds)
+type WireDuration = (String, Duration, Option<(i64, i32)>);
+
+fn fixed_wire_durations() -> &'static [WireDuration] {
+  static CELL: std::sync::OnceLock<Vec<WireDuration>> = std::sync::OnceLock::new();
+  CELL.get_or_init(|| {
+    let mut v: Vec<WireDuration> = Vec::new();
+    for (s, n) in WIRE_DURATIONS {
+      let text = format!("[{},{}]", s, n);
+      if let Some(d) = wire_duration(&text) {
+        v.push((text, d, Some((*s, *n))));
+      }
+    }
+    for text in WIRE_DURATION_TEXTS {
+      if let Some(d) = wire_duration(text) {
+        v.push((text.to_string(), d, None));
+      }
+    }
+    v
+  })
+}
+
+/// Accepted timestamps on and next to both ends of the range (and the epoch), for durations that come from mutated JSON.
+fn edge_timestamps() -> &'static [(String, Timestamp)] {
+  static CELL: std::sync::OnceLock<Vec<(String, Timestamp)>> = std::sync::OnceLock::new();
+  CELL.get_or_init(|| {
+    let mut v = Vec::new();
+    for u in [TS_LOW, TS_LOW + 1, TS_LOW + 86_400, -1, 0, TS_HIGH - 86_400, TS_HIGH - 1, TS_HIGH] {
+      if let Some(t) = vh::panicmon::catch(|| Timestamp::from_unix(u).ok()).ok().flatten() {
+        v.push((format!("from_unix({})", u), t));
+      }
+    }
+    v
+  })
+}
+
+/// An accepted `Duration`: serialisers, comparisons, and arithmetic with timestamps at the ends of the range.
+pub fn sweep_duration(cx: &mut Cx, origin: &str, d: Duration) {
+  let i = In::C(origin, "Duration");
+  cx.acc("Duration.to_json", i, || (d.to_json().map(|j| Duration::from_json(&j).is_ok()).is_ok(), d.to_json_value().is_ok(), d.to_json_vec().is_ok()));
+  cx.acc("Duration.eq_hash_ord", i, || (d == d, hash_of(&d), d.cmp(&Duration::seconds(0)), d.cmp(&d)));
+  for (name, t) in edge_timestamps() {
+    ts_arith(cx, name, *t, None, origin, d, None);
+  }
+}
+
+/// Every formatter / serialiser / accessor of a `Timestamp` that was handed out by `checked_add` / `checked_sub`.
+fn ts_formatters(t: Timestamp) -> usize {
+  let a = t.to_rfc3339().len();
+  let b = t.to_string().len();
+  let c = format!("{:?}", t).len();
+  let d = String::from(t).len();
+  let e = t.to_json().map(|j| j.len() + Timestamp::from_json(&j).is_ok() as usize).unwrap_or(0);
+  let f = t.to_json_value().is_ok() as usize + t.to_json_vec().map(|v| v.len()).unwrap_or(0);
+  let g = Timestamp::from_unix(t.to_unix()).is_ok() as usize;
+  let h = (t == t) as usize + (hash_of(&t) & 1) as usize + (t.cmp(&t) as i8) as usize;
+  a + b + c + d + e + f + g + h
+}
+
+/// `t + d` and `t - d`; a sum / difference that is handed out is an accepted value like any other.
+fn ts_arith(cx: &mut Cx, origin: &str, t: Timestamp, unix: Option<i64>, dtext: &str, d: Duration, model: Option<(i64, i32)>) {
+  let i = In::C(origin, dtext);
+  cx.rep.inc("ts_wire_arith");
+  for (name, fname, sign) in [("Timestamp.checked_add", "Timestamp.checked_add>formatters", 1i128), ("Timestamp.checked_sub", "Timestamp.checked_sub>formatters", -1i128)] {
+    // counters only: does the harness's own integer arithmetic put the result outside of the range?
+    if let (Some(u), Some((s, n))) = (unix, model) {
+      const G: i128 = 1_000_000_000;
+      let r = u as i128 * G + sign * (s as i128 * G + n as i128);
+      if r < TS_LOW as i128 * G {
+        cx.rep.inc("ts_arith_below_range");
+      } else if r >= (TS_HIGH as i128 + 1) * G {
+        cx.rep.inc("ts_arith_above_range");
+      } else if r < (TS_LOW as i128 + 1) * G || r >= TS_HIGH as i128 * G {
+        cx.rep.inc("ts_arith_on_range_end");
+      }
+    }
+    let r = cx.acc(name, i, || if sign > 0 { t.checked_add(d) } else { t.checked_sub(d) });
+    match r {
+      Some(Some(x)) => {
+        cx.rep.inc("ts_arith_some");
+        cx.acc(fname, i, || ts_formatters(x));
+      }
+      Some(None) => cx.rep.inc("ts_arith_none"),
+      None => {}
+    }
+  }
+}
+
 pub fn sweep_ts(cx: &mut Cx, origin: &str, t: Timestamp) {
   let i = In::C(origin, "Timestamp");
   cx.acc("Timestamp.to_rfc3339", i, || t.to_rfc3339().len());
-  cx.acc("Timestamp.to_unix", i, || t.to_unix());
+  let unix = cx.acc("Timestamp.to_unix", i, || t.to_unix());
   cx.acc("Timestamp.fmt", i, || (t.to_string().len(), format!("{:?}", t).len(), String::from(t).len()));
   cx.acc("Timestamp.to_json", i, || t.to_json().map(|j| Timestamp::from_json(&j).is_ok()).is_ok());
   cx.acc("Timestamp.eq_hash_ord", i, || (t == t, hash_of(&t), t.cmp(&t)));
   for d in [Duration::seconds(u32::MAX), Duration::minutes(u32::MAX), Duration::hours(u32::MAX), Duration::days(u32::MAX), Duration::weeks(u32::MAX), Duration::seconds(1), Duration::days(366)] {
     cx.acc("Timestamp.checked_add", i, || t.checked_add(d).map(|x| x.to_rfc3339().len()));
     cx.acc("Timestamp.checked_sub", i, || t.checked_sub(d).map(|x| x.to_rfc3339().len()));
+  }
+  // durations as they arrive over the wire: negative, fractional, huge
+  for (text, d, model) in fixed_wire_durations() {
+    ts_arith(cx, origin, t, unix, text, *d, *model);
+  }
+  // ... and the ones that take exactly THIS timestamp onto, and one step beyond, either end of the range (both operations,
+  // both signs, whole seconds and a nanosecond off)
+  if let Some(u) = unix {
+    if (TS_LOW..=TS_HIGH).contains(&u) {
+      let down = u - TS_LOW; // >= 0: seconds down to the first representable second
+      let up = TS_HIGH - u; // >= 0: seconds up to the last one
+      for (secs, nanos) in [(down, 0), (down + 1, 0), (down, 1), (down, 999_999_999), (down + 1, -1), (up, 0), (up + 1, 0), (up, 999_999_999), (up + 1, -1), (up, 1)] {
+        for sign in [1i64, -1] {
+          let text = format!("[{},{}]", sign * secs, sign as i32 * nanos);
+          if let Some(d) = cx.ent("Duration::from_json", In::S(&text), || Duration::from_json(&text)) {
+            ts_arith(cx, origin, t, unix, &text, d, Some((sign * secs, sign as i32 * nanos)));
+          }
+        }
+      }
+    }
   }
 }
 
@@ -109,7 +246,9 @@ fn feed_json(cx: &mut Cx, j: &str) {
   if let Some(t) = cx.ent("Timestamp::from_json", i, || Timestamp::from_json(j)) {
     sweep_ts(cx, j, t);
   }
-  cx.ent("Duration::from_json", i, || Duration::from_json(j).map(|d| d.to_json().is_ok()));
+  if let Some(d) = cx.ent("Duration::from_json", i, || Duration::from_json(j)) {
+    sweep_duration(cx, j, d);
+  }
 }
 
 pub fn run(cx: &mut Cx, w: &World, rng: &mut Rng, budget: u64) {
@@ -152,6 +291,12 @@ pub fn run(cx: &mut Cx, w: &World, rng: &mut Rng, budget: u64) {
       if let Some(t) = cx.ent("Timestamp::from_unix", In::S(&s), || Timestamp::from_unix(x)) {
         sweep_ts(cx, &s, t);
       }
+    }
+  }
+  for text in WIRE_DURATIONS.iter().map(|(s, n)| format!("[{},{}]", s, n)).chain(WIRE_DURATION_TEXTS.iter().map(|t| t.to_string())) {
+    k += 1;
+    if cx.args.mine(k) {
+      feed_json(cx, &text);
     }
   }
   let json_directed: Vec<String> = vec![
@@ -217,7 +362,11 @@ pub fn run(cx: &mut Cx, w: &World, rng: &mut Rng, budget: u64) {
   }
   for _ in 0..budget / 3 {
     let (_, text, val) = w.seeds.pick(rng, &[]);
-    let base = match rng.below(4) {
+    let base = match rng.below(5) {
+      4 => {
+        let (s, n) = *rng.pick(WIRE_DURATIONS);
+        format!("[{},{}]", s, n)
+      }
       0 => "[\"a\",\"b\",\"c\"]".to_string(),
       1 => "\"2020-01-01T00:00:00Z\"".to_string(),
       2 => "[\"https://www.w3.org/2018/credentials/v1\",{\"a\":\"b\"}]".to_string(),
